@@ -151,6 +151,7 @@ static int parseReset(MPT_INTERFACE(iterator) *ptr)
 	/* value after separator config */
 	if ((it->val = strchr((void *) (it + 1), 0))) {
 		++it->val;
+		it->end = it->val + strlen(it->val);
 	}
 	return 1;
 }
